@@ -39,6 +39,7 @@ type stack struct {
 	binLim  func(i int) int
 	keys    []string
 	unknown bool // lookup: has an unknown bucket
+	direct  []func() // accessors of the partition objects themselves (what a gauge supplier or the owner of the object calls)
 }
 
 func share(total, num int) int {
@@ -86,7 +87,12 @@ func buildStack(r *rand.Rand, initial int) stack {
 			s.RemovePartition("gone")
 			return stack{name: "lookup", st: s, limit: s.Limit, nums: nums, keys: []string{"zz"}, unknown: false}
 		}
-		return stack{name: "lookup", st: s, limit: s.Limit, nums: nums, keys: names, unknown: true,
+		var direct []func()
+		for _, k := range names {
+			lp := ps[k]
+			direct = append(direct, func() { _ = lp.Limit() }, func() { _ = lp.BusyCount() }, func() { _ = lp.IsLimitExceeded() }, func() { _ = lp.String() })
+		}
+		return stack{name: "lookup", st: s, limit: s.Limit, nums: nums, keys: names, unknown: true, direct: direct,
 			binLim: func(i int) int { v, _ := s.BinLimit(names[i]); return v }}
 	}
 	var ps []*strategy.PredicatePartition
@@ -97,7 +103,12 @@ func buildStack(r *rand.Rand, initial int) stack {
 	if err != nil {
 		panic(err)
 	}
-	return stack{name: "predicate", st: s, limit: s.Limit, nums: nums, keys: names,
+	var direct []func()
+	for _, pp := range ps {
+		pp := pp
+		direct = append(direct, func() { _ = pp.Limit() }, func() { _ = pp.BusyCount() }, func() { _ = pp.IsLimitExceeded() }, func() { _ = pp.String() })
+	}
+	return stack{name: "predicate", st: s, limit: s.Limit, nums: nums, keys: names, direct: direct,
 		binLim: func(i int) int { v, _ := s.BinLimit(i); return v }}
 }
 
@@ -219,6 +230,9 @@ func scenario(t *testing.T, idx int64, r *rand.Rand) {
 							sk.limit()
 							if sk.busy != nil {
 								sk.busy()
+							}
+							for _, f := range sk.direct {
+								f()
 							}
 						}
 					}
